@@ -19,8 +19,8 @@ def gen_group(rng):
         if pitches and rng.random() < 0.3: pitches.append(pitches[-1])
         elif len(pitches) >= 2 and rng.random() < 0.2: pitches.append(pitches[0])
         else: pitches.append(rng.choice(NOTES) + rng.choice(["", "", "+", "-"]))
-    lens = [rng.choice(["", "", "4", "8", "16", "2", "8.", "%30"]) for _ in range(n)]
-    gates = [rng.choice(["", "", "50", "100", "80"]) for _ in range(n)]
+    lens = [rng.choice(["", "", "4", "8", "16", "2", "8.", "%30", "32", "%5"]) for _ in range(n)]
+    gates = [rng.choice(["", "", "50", "100", "80", "150", "200", "300", "1"]) for _ in range(n)]     # a note's own gate may exceed 100 %
     return pitches, lens, gates
 
 def render_group(g, tied, mark=111):
